@@ -83,3 +83,60 @@ func ruleErrInstanceOwn(c *Ctx, r *R) {
 		}
 	}
 }
+
+func init() {
+	register(&Rule{ID: "THIS-passthrough", Props: []string{"C09", "C01"}, Min: 2,
+		Doc: "P (ES5 15.3.4.3 step 8 / 15.3.4.4 step 4, and the NOTE after them: `the thisArg value is passed without modification as the this value`): in the functions bound to Function.prototype.call and .apply the this value handed to [[Call]] is the first argument itself - not a choice between it and the global object. The replacement of undefined by the global object belongs to the entry of a *script* function (10.4.3); done here it also reaches built-ins, so `Array.prototype.push.call(undefined, 1)` appends to the global object instead of throwing a TypeError",
+		Run: ruleThisPassthrough})
+}
+
+func ruleThisPassthrough(c *Ctx, r *R) {
+	fns := c.Shape().boundSSA(c, "Function.prototype")
+	for _, name := range []string{"call", "apply"} {
+		fn := fns[name]
+		if fn == nil {
+			r.undecided(name, "-", "UNRESOLVED: Function.prototype."+name)
+			continue
+		}
+		n, bad := 0, ""
+		for _, b := range fn.Blocks {
+			for _, ins := range b.Instrs {
+				call, ok := ins.(*ssa.Call)
+				if !ok {
+					continue
+				}
+				callee := call.Call.StaticCallee()
+				if callee == nil || callee.Name() != "call" || callee.Signature.Recv() == nil || !typeIs(callee.Signature.Recv().Type(), ottoPath, "object") {
+					continue
+				}
+				n++
+				this := call.Call.Args[1]
+				if ld, ok := this.(*ssa.UnOp); ok {
+					if al, ok := ld.X.(*ssa.Alloc); ok {
+						stores := 0
+						for _, ref := range *al.Referrers() {
+							if st, ok := ref.(*ssa.Store); ok && st.Addr == ssa.Value(al) {
+								stores++
+							}
+						}
+						if stores > 1 {
+							bad = c.Pos(instrPos(call))
+						}
+					}
+				}
+				if _, isPhi := this.(*ssa.Phi); isPhi {
+					bad = c.Pos(instrPos(call))
+				}
+			}
+		}
+		key := "Function.prototype." + name
+		switch {
+		case n == 0:
+			r.undecided(key, c.Pos(fn.Pos()), "UNRESOLVED: no [[Call]] of the target in the function bound to "+key)
+		case bad != "":
+			r.bad(key, c.Pos(fn.Pos()), fmt.Sprintf("%s hands [[Call]] (at %s) a this value that is chosen between the caller's thisArg and something else (the global object when thisArg is undefined): `Array.prototype.push.call(undefined, 1)` pushes onto the global object; ES5 15.3.4.3/4 pass thisArg without modification, and the built-in then throws a TypeError from ToObject", key, bad))
+		default:
+			r.ok(key, c.Pos(fn.Pos()), "thisArg is passed to [[Call]] unmodified")
+		}
+	}
+}
